@@ -137,11 +137,11 @@ inline void check_linear_xfm(Rep &R, const Case &c, const Pre &a, const Pre &b)
   for (int k = 0; k < 2; k++) {
     const V x = Mk<V>::v(pts[k]);
     const LD nx = ref::norm(pts[k]);
-    R.cmpV(c, "xfmPoint(L,x)=L x", "", rv(xfmPoint(m, x)), ref::app(a.A, pts[k]), 3, tolr<S>(a.kappa, a.fA * nx));
-    R.cmpV(c, "xfmVector(L,x)=L x", "", rv(xfmVector(m, x)), ref::app(a.A, pts[k]), 3, tolr<S>(a.kappa, a.fA * nx));
-    R.cmpV(c, "xfmNormal(L,x)=inverse-transpose x", "", rv(xfmNormal(m, x)), ref::app(AinvT, pts[k]), 3, tolr<S>(a.kappa, a.fAinv * nx));
+    R.cmpV(c, "xfmPoint(L,x)=L x", "", rv(xfmPoint(m, x)), ref::app(a.A, pts[k]), 3, tolx<S>(a.kappa, a.fA * nx));
+    R.cmpV(c, "xfmVector(L,x)=L x", "", rv(xfmVector(m, x)), ref::app(a.A, pts[k]), 3, tolx<S>(a.kappa, a.fA * nx));
+    R.cmpV(c, "xfmNormal(L,x)=inverse-transpose x", "", rv(xfmNormal(m, x)), ref::app(AinvT, pts[k]), 3, tolx<S>(a.kappa, a.fAinv * nx));
     R.cmpV(c, "xfmPoint(A*B,x)=xfmPoint(A,xfmPoint(B,x))", "", rv(xfmPoint(m * mb, x)), rv(xfmPoint(m, xfmPoint(mb, x))), 3,
-        tolr<S>(a.kappa, a.fA * b.fA * nx));
+        tolx<S>(a.kappa, a.fA * b.fA * nx));
   }
 }
 
@@ -172,17 +172,17 @@ inline void check_affine(Rep &R, const Case &c, const Pre &a, const ref::V &t, c
   for (int k = 0; k < 2; k++) {
     const V x = Mk<V>::v(pts[k]);
     const LD nx = ref::norm(pts[k]);
-    R.cmpV(c, "A applied to a point = L x + p", "", rv(applyA(m, x)), ref::add(ref::app(a.A, pts[k]), t), n, tolr<S>(a.kappa, a.fA * nx + nt));
+    R.cmpV(c, "A applied to a point = L x + p", "", rv(applyA(m, x)), ref::add(ref::app(a.A, pts[k]), t), n, tolx<S>(a.kappa, a.fA * nx + nt));
     // undo: rcp(A) applied to A x is x
-    R.cmpV(c, "rcp(A) applied to (A applied to x) = x", "", rv(applyA(inv, applyA(m, x))), pts[k], n, tolr<S>(a.kappa, a.fAinv * (a.fA * nx + nt)));
+    R.cmpV(c, "rcp(A) applied to (A applied to x) = x", "", rv(applyA(inv, applyA(m, x))), pts[k], n, tolx<S>(a.kappa, a.fAinv * (a.fA * nx + nt)));
     for (int j = 0; j < np && j < (int)ps.size(); j++) {
       const Pre &b = ps[j].pre;
       const A mb(mk<L>(b.A), Mk<V>::v(ps[j].t));
       const LD ns = ref::norm(ps[j].t);
       R.cmpV(c, "(A*B) applied to x = A applied to (B applied to x)", "", rv(applyA(m * mb, x)), rv(applyA(m, applyA(mb, x))), n,
-          tolr<S>(a.kappa, a.fA * (b.fA * nx + ns) + nt));
+          tolx<S>(a.kappa, a.fA * (b.fA * nx + ns) + nt));
       R.cmpV(c, "(B*A) applied to x = B applied to (A applied to x)", "", rv(applyA(mb * m, x)), rv(applyA(mb, applyA(m, x))), n,
-          tolr<S>(a.kappa, b.fA * (a.fA * nx + nt) + ns));
+          tolx<S>(a.kappa, b.fA * (a.fA * nx + nt) + ns));
     }
   }
 }
@@ -200,9 +200,9 @@ inline void check_affine_xfm(Rep &R, const Case &c, const Pre &a, const ref::V &
   for (int k = 0; k < 2; k++) {
     const V x = Mk<V>::v(pts[k]);
     const LD nx = ref::norm(pts[k]);
-    R.cmpV(c, "xfmPoint(A,x)=L x + p", "", rv(xfmPoint(m, x)), ref::add(ref::app(a.A, pts[k]), t), 3, tolr<S>(a.kappa, a.fA * nx + nt));
-    R.cmpV(c, "xfmVector(A,x)=L x", "", rv(xfmVector(m, x)), ref::app(a.A, pts[k]), 3, tolr<S>(a.kappa, a.fA * nx));
-    R.cmpV(c, "xfmNormal(A,x)=inverse-transpose of L applied to x", "", rv(xfmNormal(m, x)), ref::app(AinvT, pts[k]), 3, tolr<S>(a.kappa, a.fAinv * nx));
+    R.cmpV(c, "xfmPoint(A,x)=L x + p", "", rv(xfmPoint(m, x)), ref::add(ref::app(a.A, pts[k]), t), 3, tolx<S>(a.kappa, a.fA * nx + nt));
+    R.cmpV(c, "xfmVector(A,x)=L x", "", rv(xfmVector(m, x)), ref::app(a.A, pts[k]), 3, tolx<S>(a.kappa, a.fA * nx));
+    R.cmpV(c, "xfmNormal(A,x)=inverse-transpose of L applied to x", "", rv(xfmNormal(m, x)), ref::app(AinvT, pts[k]), 3, tolx<S>(a.kappa, a.fAinv * nx));
   }
 }
 
@@ -253,9 +253,9 @@ inline void check_scale_translate(Rep &R, const Case &c, const ref::V &s)
   const ref::V *pts = points(n);
   for (int k = 0; k < 2; k++) {
     const V x = Mk<V>::v(pts[k]);
-    R.cmpV(c, "A::translate(t) applied to x = x + t", "", rv(applyA(at, x)), ref::add(pts[k], s), n, tolr<S>(1, ref::norm(s) + ref::norm(pts[k])));
+    R.cmpV(c, "A::translate(t) applied to x = x + t", "", rv(applyA(at, x)), ref::add(pts[k], s), n, tolx<S>(1, ref::norm(s) + ref::norm(pts[k])));
     ref::V sx = ref::vec(s.v[0] * pts[k].v[0], s.v[1] * pts[k].v[1], n == 3 ? s.v[2] * pts[k].v[2] : 0);
-    R.cmpV(c, "A::scale(s) applied to x = s_i x_i", "", rv(applyA(as, x)), sx, n, tolr<S>(1, ref::norm(s) * ref::norm(pts[k])));
+    R.cmpV(c, "A::scale(s) applied to x = s_i x_i", "", rv(applyA(as, x)), sx, n, tolx<S>(1, ref::norm(s) * ref::norm(pts[k])));
   }
   R.outcome(hbits(at.p.x, hbits(as.l.vx.x)));
 }
